@@ -203,12 +203,33 @@ class Gen:
         if right != "t3" and self.r.random() < 0.4:
             using = self.r.choice(["id", "id", "a", "id, a"])
             return f"{ltxt}{self.ws()}{self.kw(jt)} {rtxt} {self.kw('using')} ({using})", vis, False
-        if right == "t3":
+        if self.r.random() < 0.35:
+            on = self.on_condition(la, left, ra, right)
+        elif right == "t3":
             on = self.r.choice([f"{la}.id = {ra}.t1_id", f"{ra}.t1_id = {la}.id", f"{la}.id = {ra}.id"])
         else:
             on = self.r.choice([f"{la}.id = {ra}.id", f"{ra}.id = {la}.id", f"{la}.id = {ra}.id {self.kw('and')} {la}.a = {ra}.a",
                                 f"{ra}.a {self.neq()} {la}.a"])
         return f"{ltxt}{self.ws()}{self.kw(jt)} {rtxt} {self.kw('on')} {self.maybe_br(on)}", vis, True
+
+    def on_condition(self, la: str, left: str, ra: str, right: str) -> str:
+        """1-3 comparisons between numeric columns of the two tables: any operator, either table first, and either
+        side possibly an arithmetic expression rather than a bare column (what a join-condition reordering rule
+        may and may not swap)."""
+        def side(q: str, t: str) -> str:
+            c = f"{q}.{self.r.choice(NUM[t])}"
+            r = self.r.random()
+            return c if r < 0.55 else f"{c} {self.r.choice(['+', '-', '*'])} {self.r.randrange(1, 3)}" if r < 0.9 else f"({c})"
+        parts = []
+        for _ in range(self.r.choice([1, 1, 2, 3])):
+            a, b = side(la, left), side(ra, right)
+            if self.r.random() < 0.5:
+                a, b = b, a
+            parts.append(f"{a} {self.r.choice(['=', '=', '<', '>', '<=', '>=', self.neq()])} {b}")
+        out = parts[0]
+        for p_ in parts[1:]:
+            out += f" {self.kw(self.r.choice(['and', 'and', 'or']))} {p_}"
+        return out
 
     # -- SELECT
     def select_core(self, ncols: Optional[int] = None, allow_star: bool = True) -> Tuple[str, int]:
